@@ -198,9 +198,52 @@ def test_replay_determinism():
     return f'trace of {len(runs[0].sim.trace)} decisions reproduced 3x'
 
 
+def test_wasted_notify():
+    """A notify() issued at the instant a timed waiter expires can be consumed by that (already expired) waiter: real behaviour of
+    threading.Condition, reachable only through the schedule's `flips` bits (and never without them)."""
+
+    def fn():
+        cond = threading.Condition()
+        res = {}
+
+        def a():
+            with cond:
+                res['a'] = cond.wait(0.1)
+
+        def b():
+            with cond:
+                res['b'] = cond.wait(10.0)
+                res['b_t'] = time.monotonic()
+
+        def n():
+            time.sleep(0.1)
+            with cond:
+                cond.notify()
+
+        t0 = time.monotonic()
+        ts = [threading.Thread(target=f) for f in (a, b, n)]
+        for t in ts:
+            t.start()
+        for t in ts:
+            t.join()
+        return res['a'], res['b'], round(res['b_t'] - t0, 3)
+
+    seen = {False: set(), True: set()}
+    for flips in ([], [1], [0, 1], [1, 1]):
+        for sched in sparse_schedules(30, 12):
+            out = run_sim(fn, dict(sched, flips=flips) if flips else sched)
+            assert out.verdict is None and out.exc is None, (out.verdict, out.exc)
+            seen[bool(flips)].add(out.result)
+    wasted = (False, False, 10.0)
+    assert wasted in seen[True], seen[True]
+    assert wasted not in seen[False], seen[False]
+    assert all(r[0] or r[1] for r in seen[False]), seen[False]
+    return f'without flips {sorted(seen[False])}; with flips additionally {sorted(seen[True] - seen[False])}'
+
+
 def main():
     ok = True
-    for t in (test_queue_fifo_exhaustive, test_lock_inversion, test_lost_update, test_virtual_time_exact, test_replay_determinism):
+    for t in (test_wasted_notify, test_queue_fifo_exhaustive, test_lock_inversion, test_lost_update, test_virtual_time_exact, test_replay_determinism):
         try:
             print(f'selftest {t.__name__}: ok - {t()}')
         except BaseException as e:
